@@ -19,6 +19,7 @@ OS_INV = "unfired(self._result) or len(self._observers) == 0"
 SQ_INV = ["len(self._results) == 0 or len(self._observers) == 0",
           "self._error is None or (is_failure(self._error) and len(self._observers) == 0)"]
 OS_MOD = ["_result", "_observers", "_eq.n", "_eq.at"]
+C18_REPLAY = {"driver": "c18_replay:run"}
 
 
 def same_prefix(q, oq):
@@ -54,15 +55,15 @@ def loop_sched(kind, seq, arg):
 
 
 OBSERVER_CONTRACTS = [
-    Contract(OBS + "OneShotObserver._maybe_call_observers", props=[PROP], params={}, self_fields=ONESHOT,
+    Contract(OBS + "OneShotObserver._maybe_call_observers", props=[PROP], params={}, self_fields=ONESHOT, replay=C18_REPLAY,
              ensures=[("unfired-nothing-happens",
                        "imp(unfired(self._result), self._observers == old(self._observers) and "
                        f"{SAME_CALLS})"),
                       ("fired-every-waiter-scheduled-exactly-once-in-order",
                        f"imp(not unfired(self._result), len(self._observers) == 0 and {ALL_WAITING('callback', 'self._result')})")],
              modifies=["_observers", "_eq.n", "_eq.at"],
-             loops={0: dict(loop_sched("callback", "observers", "self._result"), header="for d in observers")}),
-    Contract(OBS + "OneShotObserver.when_fired", props=[PROP], params={}, self_fields=ONESHOT, returns=DEF,
+             loops={0: dict(loop_sched("callback", "_iter", "self._result"), header="for d in observers")}),
+    Contract(OBS + "OneShotObserver.when_fired", props=[PROP], params={}, self_fields=ONESHOT, replay=C18_REPLAY, returns=DEF,
              requires=[OS_INV],
              ensures=[("unfired-waits",
                        "imp(unfired(self._result), self._observers == old(self._observers) + [result] and "
@@ -72,7 +73,7 @@ OBSERVER_CONTRACTS = [
                        + one_more(CALLS, OLD_CALLS, "qcall('callback', result, self._result)") + ")"),
                       ("invariant", OS_INV)],
              modifies=["_observers", "_eq.n", "_eq.at"]),
-    Contract(OBS + "OneShotObserver.fire", props=[PROP], params={"result": RES}, self_fields=ONESHOT,
+    Contract(OBS + "OneShotObserver.fire", props=[PROP], params={"result": RES}, self_fields=ONESHOT, replay=C18_REPLAY,
              requires=[OS_INV, "not unfired(result)"],
              raises_exactly={"AssertionError": "not unfired(self._result)"},
              ensures=[("latched", "self._result == old(result)"),
@@ -81,14 +82,14 @@ OBSERVER_CONTRACTS = [
                                                 f"self._result == old(self._result) and {SAME_CALLS} and "
                                                 "self._observers == old(self._observers)")]},
              modifies=OS_MOD),
-    Contract(OBS + "OneShotObserver.error", props=[PROP], params={"f": RES}, self_fields=ONESHOT,
+    Contract(OBS + "OneShotObserver.error", props=[PROP], params={"f": RES}, self_fields=ONESHOT, replay=C18_REPLAY,
              requires=[OS_INV],
              raises_exactly={"AssertionError": "not is_failure(f)"},
              ensures=[("failure-latched-over-any-result", "self._result == f"),
                       ("every-waiter-gets-the-failure", f"len(self._observers) == 0 and {ALL_WAITING('callback', 'f')}")],
              ensures_raise={"AssertionError": [("nothing-changed", f"self._result == old(self._result) and {SAME_CALLS}")]},
              modifies=OS_MOD),
-    Contract(OBS + "OneShotObserver.fire_if_not_fired", props=[PROP], params={"result": RES}, self_fields=ONESHOT,
+    Contract(OBS + "OneShotObserver.fire_if_not_fired", props=[PROP], params={"result": RES}, self_fields=ONESHOT, replay=C18_REPLAY,
              requires=[OS_INV, "not unfired(result)"],
              ensures=[("latched-by-the-first-event-only",
                        "self._result == ite(unfired(old(self._result)), old(result), old(self._result))"),
@@ -97,7 +98,7 @@ OBSERVER_CONTRACTS = [
                       ("already-fired-is-a-no-op", f"imp(not unfired(old(self._result)), {SAME_CALLS})"),
                       ("invariant", OS_INV)],
              modifies=OS_MOD),
-    Contract(OBS + "SequenceObserver.when_next_event", props=[PROP], params={}, self_fields=SEQOBS, returns=DEF,
+    Contract(OBS + "SequenceObserver.when_next_event", props=[PROP], params={}, self_fields=SEQOBS, replay=C18_REPLAY, returns=DEF,
              requires=SQ_INV,
              ensures=[("after-an-error-every-new-waiter-errbacks",
                        "imp(old(self._error) is not None, "
@@ -112,7 +113,7 @@ OBSERVER_CONTRACTS = [
                        f"self._observers == old(self._observers) + [result] and {SAME_CALLS} and len(self._results) == 0)"),
                       ("invariant-a", SQ_INV[0]), ("invariant-b", SQ_INV[1])],
              modifies=["_results", "_observers", "_eq.n", "_eq.at"]),
-    Contract(OBS + "SequenceObserver.fire", props=[PROP], params={"result": RES}, self_fields=SEQOBS,
+    Contract(OBS + "SequenceObserver.fire", props=[PROP], params={"result": RES}, self_fields=SEQOBS, replay=C18_REPLAY,
              requires=SQ_INV,
              ensures=[("failure-latches-and-errbacks-every-waiter",
                        "imp(is_failure(old(result)), self._error == old(result) and len(self._observers) == 0 and "
@@ -127,7 +128,7 @@ OBSERVER_CONTRACTS = [
                       ("error-only-set-by-a-failure", "imp(not is_failure(old(result)), self._error == old(self._error))"),
                       ("invariant-a", SQ_INV[0]), ("invariant-b", SQ_INV[1])],
              modifies=["_error", "_results", "_observers", "_eq.n", "_eq.at"],
-             loops={0: dict(loop_sched("errback", "self._observers", "self._error"), header="for d in self._observers")}),
+             loops={0: dict(loop_sched("errback", "_iter", "self._error"), header="for d in self._observers")}),
 ]
 
 
@@ -175,8 +176,8 @@ EVENTUAL_CONTRACTS = [
                         "ghost_init": {"ran": f'empty_seq("{CALLT}")'},
                         "ghost_update": {"ran": "ran + [ran_event()]"},
                         "body_ensures": ["ran_event() == (f, args, kwargs)"],
-                        "invariant": ["to_call == at_entry(to_call)", "len(ran) == _i",
-                                      "forall(lambda j: imp(0 <= j and j < _i, ran[j] == to_call[j]))",
+                        "invariant": ["_iter == at_entry(to_call)", "len(ran) == _i",
+                                      "forall(lambda j: imp(0 <= j and j < _i, ran[j] == _iter[j]))",
                                       "self._calls == self._ghost_added"]}},
              note="_ghost_added is a ghost field: what stored calls queue while they run (see the stored-call model); "
                   "`ran` is the ghost sequence of stored calls executed by this turn"),
@@ -204,7 +205,7 @@ def _share_eq(it, fr):
 
 def got_contract(meth, param, obs, extra_fields=(), extra_ensures=()):
     o = f"self.{obs}"
-    return Contract(WH + meth, props=[PROP], params={param: RES}, self_fields=WH_FIELDS, pre_hook=_share_eq,
+    return Contract(WH + meth, props=[PROP], params={param: RES}, self_fields=WH_FIELDS, pre_hook=_share_eq, replay=C18_REPLAY,
                     requires=WH_INV + [f"not unfired({param})"],
                     ensures=[("latched-by-the-first-event-only",
                               f"{o}._result == ite(unfired(old({o}._result)), {param}, old({o}._result))"),
@@ -218,7 +219,7 @@ def got_contract(meth, param, obs, extra_fields=(), extra_ensures=()):
 
 def get_contract(meth, obs):
     o = f"self.{obs}"
-    return Contract(WH + meth, props=[PROP], params={}, self_fields=WH_FIELDS, pre_hook=_share_eq, returns=DEF,
+    return Contract(WH + meth, props=[PROP], params={}, self_fields=WH_FIELDS, pre_hook=_share_eq, replay=C18_REPLAY, returns=DEF,
                     requires=WH_INV,
                     ensures=[("before-the-event-the-deferred-waits",
                               f"imp(unfired({o}._result), {o}._observers == old({o}._observers) + [result] and {unchanged(Q, OLDQ)})"),
@@ -271,7 +272,7 @@ WORMHOLE_CONTRACTS = [
     get_contract("get_unverified_key", "_key_observer"),
     get_contract("get_verifier", "_verifier_observer"),
     get_contract("get_versions", "_version_observer"),
-    Contract(WH + "received", props=[PROP], params={"plaintext": RES}, self_fields=WH_FIELDS, pre_hook=_share_eq,
+    Contract(WH + "received", props=[PROP], params={"plaintext": RES}, self_fields=WH_FIELDS, pre_hook=_share_eq, replay=C18_REPLAY,
              requires=WH_INV + ["not is_failure(plaintext)"],
              ensures=[("oldest-waiting-get_message-gets-it",
                        "imp(len(old(self._received_observer._observers)) > 0, "
@@ -283,7 +284,7 @@ WORMHOLE_CONTRACTS = [
                       ("error-state-kept", "self._received_observer._error == old(self._received_observer._error)")] +
              [(f"invariant-{i}", s) for i, s in enumerate(WH_INV)],
              modifies=RCV_MOD),
-    Contract(WH + "get_message", props=[PROP], params={}, self_fields=WH_FIELDS, pre_hook=_share_eq, returns=DEF,
+    Contract(WH + "get_message", props=[PROP], params={}, self_fields=WH_FIELDS, pre_hook=_share_eq, replay=C18_REPLAY, returns=DEF,
              requires=WH_INV,
              ensures=[("after-closed-it-errbacks",
                        "imp(old(self._received_observer._error) is not None, "
@@ -297,14 +298,14 @@ WORMHOLE_CONTRACTS = [
                        "self._received_observer._observers == old(self._received_observer._observers) + [result] and "
                        f"{unchanged(Q, OLDQ)})")] + [(f"invariant-{i}", s) for i, s in enumerate(WH_INV)],
              modifies=RCV_MOD),
-    Contract(WH + "closed", props=[PROP], params={"result": RES}, self_fields=WH_FIELDS, pre_hook=_share_eq,
+    Contract(WH + "closed", props=[PROP], params={"result": RES}, self_fields=WH_FIELDS, pre_hook=_share_eq, replay=C18_REPLAY,
              requires=WH_INV + ["not unfired(result)"],
              ensures=closed_ensures() + [("boss-untouched", "len(bcall_names()) == 0")],
              modifies=[f"{o}.{f}" for o in ONES + ["_closed_observer"] for f in ("_result", "_observers")] +
              RCV_MOD + ["_received_observer._error", "_closed"], max_paths=400,
              note="after closed() every observer is latched on a Failure, so (by the observer contracts) every outstanding "
                   "Deferred has exactly one call queued and every later get_*() fires with that Failure"),
-    Contract(WH + "close", props=[PROP], params={}, self_fields=WH_FIELDS, pre_hook=_share_eq, returns=DEF,
+    Contract(WH + "close", props=[PROP], params={}, self_fields=WH_FIELDS, pre_hook=_share_eq, replay=C18_REPLAY, returns=DEF,
              requires=WH_INV,
              ensures=[("boss-close-while-not-closed", "imp(not old(self._closed), bcall_targets() == ['IBoss.close'])"),
                       ("no-boss-close-after-closed", "imp(old(self._closed), len(bcall_targets()) == 0)"),
